@@ -121,7 +121,7 @@ MacroLibs ==
   \cup { Lib([M0 EXCEPT !.foreign = <<[cell |-> "fc", pt |-> <<P(2)>>, orient |-> <<o>>]>>]) : o \in Orients }
   \cup { Lib([M0 EXCEPT !.origin = <<P(i)>>]) : i \in {1, 2, 6} }
   \cup { Lib([M0 EXCEPT !.size = <<P(i)>>]) : i \in {2, 4, 7} }
-  \cup { Lib([M0 EXCEPT !.symmetry = <<sy>>]) : sy \in { <<>>, <<"X">>, <<"Y", "X">>, <<"X", "Y", "R90">> } }
+  \cup { Lib([M0 EXCEPT !.symmetry = <<sy>>]) : sy \in { <<>>, <<"X">>, <<"Y", "X">>, <<"X", "Y", "R90">>, <<"X", "Y", "X">>, <<"R90", "R90">> } }
   \cup { Lib([M0 EXCEPT !.site = <<"core_site">>]), Lib([M0 EXCEPT !.eeq = <<"other">>]), Lib([M0 EXCEPT !.fixed_mask = TRUE]) }
   \cup { [Lib([M0 EXCEPT !.source = <<s>>]) EXCEPT !.version = <<Dec(FALSE, 54, 1)>>] : s \in {"USER", "NETLIST", "DIST", "TIMING"} }
   \cup { Lib([M0 EXCEPT !.properties = ps]) : ps \in PropSets }
@@ -164,6 +164,11 @@ GeomLibs ==
   \cup { WithLayer([L0 EXCEPT !.vias = <<[name |-> "via12", pt |-> P(i)]>>]) : i \in {1, 2} }
   \cup { WithLayer([L0 EXCEPT !.geoms = <<G("RECT", 2), G("PATH", 2), G("POLYGON", 3)>>, !.vias = <<[name |-> "v", pt |-> P(3)], [name |-> "w", pt |-> P(4)]>>]) }
   \cup { WithLayer(FullLayer) }
+  \* the same layer name in two LAYER statements of one port whose headers differ (plain, then with options; and the reverse)
+  \cup { WithPin([P0 EXCEPT !.ports = <<[class |-> <<>>, layers |-> ls]>>])
+           : ls \in { << [L0 EXCEPT !.geoms = <<G("RECT", 2)>>], [L0 EXCEPT !.except_pg_net = <<TRUE>>, !.spacing = <<[k |-> "SPACING", v |-> Dn(2)]>>, !.geoms = <<G("RECT", 2)>>] >>,
+                       << [L0 EXCEPT !.spacing = <<[k |-> "DESIGNRULEWIDTH", v |-> Dn(4)]>>, !.geoms = <<G("RECT", 2)>>], [L0 EXCEPT !.geoms = <<G("PATH", 2)>>],
+                          [L0 EXCEPT !.except_pg_net = <<TRUE>>, !.geoms = <<G("POLYGON", 3)>>] >> } }
 
 AllLibs == HeaderLibs \cup UnitLibs \cup PropDefLibs \cup SiteLibs \cup ViaLibs \cup MacroLibs \cup PinLibs \cup GeomLibs
 
